@@ -84,6 +84,13 @@ def _cases_first_call(tier):
                         out.append({'family': 'ugrid', 'mesh': mesh, 'start_index': 0, 'fill': 'nan', 'transposed': False,
                                     'supplied': supplied, 'edge_dim': 'implied', 'coords_as': 'var', 'two_dim': 'nv', 'nt': nt, 'nk': nk,
                                     'io': 'reopen'})
+    # face tables whose padding dimension has a name of its own
+    for mesh in (['M4', 'M6'] if tier == 'quick' else ['M4', 'M5', 'M6', 'M7']):
+        for supplied in (['face_edge', 'edge_face'], ['face_face'], list(builders.OPTIONAL_TABLES)):
+            for transposed in (False, True):
+                out.append({'family': 'ugrid', 'mesh': mesh, 'start_index': 1, 'fill': 'fillattr', 'transposed': transposed,
+                            'supplied': supplied, 'edge_dim': 'declared', 'coords_as': 'var',
+                            'face_edge_dim': 'nMaxMesh2_face_edges', 'face_face_dim': 'nMaxMesh2_face_links'})
     # topologies of datasets that have been used, copied, pickled, saved or chunked before
     for mesh in (['M6'] if tier == 'quick' else ['M4', 'M6', 'M7']):
         for history in ([h['history'] for h in builders.history_specs(tier) if h['family'] == 'ugrid']):
